@@ -80,6 +80,9 @@ pub struct GateTracker {
     /// (step, branch, gates in order)
     seqs: Vec<(usize, usize, Vec<u16>)>,
     handler: Option<u16>,
+    /// gates of the siblings of a panicking branch in the panicking step: the panic must reach the caller
+    /// without any of them being released (async kinds)
+    pub optional: HashSet<u16>,
 }
 impl GateTracker {
     pub fn new(prog: &Prog, exp: &Exp, plan: &Plan) -> Self {
@@ -109,7 +112,17 @@ impl GateTracker {
             }
         }
         let handler = exp.hnd.as_ref().map(|h| h.0).filter(|id| gated(*id));
-        GateTracker { seqs, handler }
+        let mut optional = HashSet::new();
+        if let (true, Some((pk, pb))) = (exp.panics && !exp.panic_optional, exp.panic_at) {
+            if pk != usize::MAX {
+                for (k, b, gs) in &seqs {
+                    if *k == pk && *b != pb {
+                        optional.extend(gs.iter().copied());
+                    }
+                }
+            }
+        }
+        GateTracker { seqs, handler, optional }
     }
     pub fn all(&self) -> Vec<u16> {
         let mut v: Vec<u16> = self.seqs.iter().flat_map(|s| s.2.iter().copied()).collect();
@@ -392,6 +405,18 @@ impl<'a> Decider<'a> {
         if pending.is_empty() {
             return Next::Deadlock(format!("future pending, not notified, no gate left to release (released={:?}, expected next={:?})", self.released, must));
         }
+        let pending: Vec<u16> = if self.tracker.optional.is_empty() {
+            pending
+        } else {
+            let need: Vec<u16> = pending.iter().copied().filter(|g| !self.tracker.optional.contains(g)).collect();
+            if need.is_empty() {
+                // the panicking branch is not waiting for anything, yet the future is still pending
+                let m = format!("the injected panic has not reached the caller: the future is pending and not notified while only gates of sibling branches {:?} are held (the caller is left blocked until unrelated branches finish)", pending);
+                self.notes.push(Note { prop: "C18", msg: m.clone() });
+                return Next::Deadlock(m);
+            }
+            need
+        };
         self.decisions += 1;
         let rel = pick(&self.sched.prio, &pending, self.sched.batch);
         for g in &rel {
